@@ -182,7 +182,7 @@ def c10_3(ctx: Ctx):
     ctx.check(bool(before_live), fi, fi.node, "an existing alignment table is used for the split", "existing table is no longer used before the yield")
 
 
-@rule("C10.4", ["C10", "C01"], "overlap groups grow monotonically; split keeps the larger alignment on an empty head", 6)
+@rule("C10.4", ["C10", "C01", "C04"], "overlap groups grow monotonically; split keeps the larger alignment on an empty head", 6)
 def c10_4(ctx: Ctx):
     repo = ctx.repo
     fi = repo.func("intervalutils.split_byte_interval")
